@@ -342,6 +342,13 @@ def _x_adapter(world: World, scn: dict, cancel_at: int | None) -> int:
             # base run only: a graceful close waits for queued data, so the peer must read eventually; in the swept runs
             # the peer never reads again, and a cancelled close must still release the socket
             ctx.w.after(0.5, peer.resume_reading)
+        if scn.get("unread"):
+            # the peer has sent more than the application read: the transport's receive buffer is full and it has PAUSED
+            # READING, so the loop no longer watches the socket and will not notice a FIN / RST by itself (the half-close
+            # of aclose() then fails with ENOTCONN after a reset: the transport has to be closed all the same)
+            peer.write(b"u" * scn["unread"])
+            await asyncio.sleep(1 / 64)
+            ctx.w.probe("adapter_close_with_unread_bytes")
         if scn["peer_event"] == "fin":
             peer.fin()
         elif scn["peer_event"] == "rst":
@@ -377,6 +384,8 @@ def _h_adapter(world: World) -> None:
         "peer_paused": bool(world.choose("paused", 2)),
         "pre": world.choose("pre", 3),
         "peer_event": world.pick("peer_event", ["none", "fin", "rst"]),
+        # bytes the peer sent and nobody read (> 256 KiB fills the transport's buffer: reading is paused at close time)
+        "unread": world.pick("unread", [0, 0, 100, 300 * 1024]),
     }
     if scn["pending"] > 50 and scn["frag"] < 64:
         scn["frag"] = 64  # keep the base run (and therefore the sweep) short
